@@ -128,9 +128,9 @@ Proof.
   destruct (alloc6 pdf m) as [[k m2]|] eqn:E; [|apply same_refl]. cbn [fst].
   eapply same_trans; [eapply alloc6_same; eauto|]. apply same_upd. intros s. apply lcp_on_fam.
 Qed.
-Lemma dh6_same : forall req m, same m (dh6 req m).
+Lemma dh6_same : forall keep req m, same m (dh6 keep req m).
 Proof.
-  intros req m. unfold dh6.
+  intros keep req m. unfold dh6.
   pose proof (resolve6_same false m) as H1. destruct (resolve6 false m) as [m1 n_na]. cbn [fst] in H1.
   pose proof (resolve6_same true m1) as H2. destruct (resolve6 true m1) as [m2 n_pd]. cbn [fst] in H2.
   eapply same_trans; [exact H1|]. eapply same_trans; [exact H2|]. clear.
